@@ -36,6 +36,7 @@ Fifth round: C08.2 Server.put and Server.restore do not test the server state (a
 Sixth round: C08.3 the blacklist is loaded before the instances (shared with C11.1); C08.5 a replaced server gets its recorded placements back (shared with C09.4) and every server that came up is reloaded.
 Seventh round: C08.6 every change of the state takes the new since (down-since and frozen-since are different times); C08.3 the blacklist flag of every instance is the verdict of _is_blacklisted on its name, recomputed for all instances when the list changes.
 Eighth round: C08.2 at a reload the placement recorded on a server without presence goes through the normal leaf placement and is given up without that attempt only for a schedule-once instance (shared with C11.2); C08.3 every entry of the blacklist is matched against the name as a pattern - no prefilter - and the walk is left early only with the verdict 'blacklisted'.
+Ninth round: C08.6 the stored record of a server's state is written by the state recorder only, with the (state, since) pair get_state() returns.
 Does NOT decide timing ('in the first cycle after the timeout') over clock
 sequences.
 """
